@@ -10,6 +10,7 @@
 mod checks;
 mod convert;
 mod corrupt;
+mod dimse;
 mod dsbuild;
 mod framework;
 mod nethelp;
